@@ -37,7 +37,7 @@ enum Color {{ RED GREEN in }}
 scalar Blob
 input Leaf {{ a: Int!, b: String, c: Color, d: Int = 9 }}
 input Outer {{ leaf: Leaf!, tags: [String!], leaves: [Leaf!], grid: [[Int]] }}
-input D {{ req: Int!, f: {type} = {lit}, after: Int }}
+input D {{ req: Int!, {fname}: {type} = {lit}, after: Int }}
 """
 
 
@@ -96,12 +96,18 @@ def eq(a, b):
     return type(a) is type(b) and a == b
 
 
-def run_case(i: int, snake: bool):
+# name of the field carrying the default: unchanged / renamed under snake case / renamed always (keyword) - a renamed field gets
+# Field(alias=...) and its default travels through another code path
+FNAMES = ["f", "theField", "in"]
+
+
+def run_case(i: int, snake: bool, fi: int = 0):
     """-> ("ok"|"gen_failed"|"import_failed"|"mismatch"|"invalid_case", detail)"""
     from graphql import build_schema
 
     tname, lit, shape = CASES[i]
-    sdl = SDL.format(type=tname, lit=lit)
+    fname = FNAMES[fi]
+    sdl = SDL.format(type=tname, lit=lit, fname=fname)
     try:
         schema = build_schema(sdl)
         from graphql import validate_schema
@@ -110,7 +116,7 @@ def run_case(i: int, snake: bool):
             return "invalid_case", "schema invalid"
     except Exception as e:
         return "invalid_case", str(e)[:100]
-    expected = schema.type_map["D"].fields["f"].default_value
+    expected = schema.type_map["D"].fields[fname].default_value
     res = gen.generate({"schema": sdl, "queries": "query Q { ping }", "config": {"convert_to_snake_case": snake, "target_package_name": f"pd{i}_{int(snake)}"}})
     if not res["ok"]:
         return "gen_failed", f"{res['exc_type']}: {res['exc_msg'][:120]}"
@@ -130,17 +136,20 @@ def run_case(i: int, snake: bool):
         finally:
             sys.path.remove(base)
         try:
+            py = [n for n, f in mod.D.model_fields.items() if (f.alias or n) == fname]
+            if len(py) != 1:
+                return "mismatch", f"no model field with the wire name {fname!r}: {list(mod.D.model_fields)}"
             inst = mod.D(req=1)
-            got = norm(inst.f)
+            got = norm(getattr(inst, py[0]))
             inst2 = mod.D.model_validate({"req": 1})
-            got2 = norm(inst2.f)
+            got2 = norm(getattr(inst2, py[0]))
         except Exception as e:
             return "mismatch", f"instantiation failed: {type(e).__name__}: {str(e)[:150]}"
         if not eq(expected, got) or not eq(expected, got2):
             return "mismatch", f"default {lit} of {tname}: schema coerces to {expected!r}, model reads {got!r}"
         # the unset field is not sent: the server applies its own default (C03 covers the transport)
         sent = inst.model_dump(by_alias=True, exclude_unset=True)
-        if "f" in sent:
+        if fname in sent:
             return "mismatch", f"field with default is sent although unset: {sent}"
         return "ok", ""
     finally:
@@ -168,13 +177,18 @@ def classify(i, status, detail) -> str:
     return ""
 
 
-def _defaults(i, snake) -> bool:
+THOROUGH = os.environ.get("VERIF_C06_THOROUGH", "0") == "1"
+
+
+def _defaults(i, snake, fname=0) -> bool:
     # NOTE: no contract here - CrossHair enforces the contracts of *called* functions and silently drops the caller's path
     k = pick(i, len(CASES))
     sn = True if snake else False
+    # quick tier: the field name cycles with the case index; thorough tier: every case under every name
+    fi = pick(fname, len(FNAMES)) if THOROUGH else (k + (1 if sn else 0)) % len(FNAMES)
     with NoTracing():
         with opened_auditwall():
-            status, detail = run_case(k, sn)
+            status, detail = run_case(k, sn, fi)
         if status in ("ok", "invalid_case"):
             return True
         kid = classify(k, status, detail)
@@ -199,6 +213,6 @@ def parts_source(nparts: int = 16) -> str:
     n = len(CASES)
     for p in range(nparts):
         lo, hi = p * n // nparts, (p + 1) * n // nparts
-        out.append(f"def check_defaults_p{p}(j: int, snake: bool) -> bool:\n    \"\"\"\n    post: _\n    \"\"\"\n"
-                   f"    return _defaults({lo} + pick(j, {hi - lo}), snake)\n")
+        out.append(f"def check_defaults_p{p}(j: int, snake: bool, fname: int) -> bool:\n    \"\"\"\n    post: _\n    \"\"\"\n"
+                   f"    return _defaults({lo} + pick(j, {hi - lo}), snake, fname)\n")
     return "\n".join(out)
